@@ -49,7 +49,7 @@ def run_case(ctx, g, rng):
     pf = sp.prefix_free()
     w = {"records": [spec.rec_dict(r) for r in recs], "delimiter": d, "prefix_free": pf}
     known = [p for r in recs for p in spec.all_p(r)]
-    prefixes = known + [p.swapcase() for p in known] + ["nope", "", rng.choice(gen.UNICODE), gen.ORIG_PREFIX]
+    prefixes = known + [p.swapcase() for p in known] + ["nope", "", rng.choice(gen.UNICODE), *gen.SPECIAL_PREFIXES]
     for p in dict.fromkeys(prefixes):
         o = sp.prefix_owner(p)
         cls = "unknown" if o is None else "canonical" if o.prefix == p else "synonym"
@@ -91,7 +91,7 @@ def run_case(ctx, g, rng):
                 nested = len(sp.uri_matches(u)) > 1
                 probe.note_key(f"uri:{'syn' if u0 != r.uri_prefix else 'canon'}:pf{int(pf)}:nested{int(nested)}:{'empty' if i == '' else 'id'}:{how == 'asked-while-growing'}", u0 != r.uri_prefix or nested)
                 S.counters["wl:uris"] += 1
-    for u in ("", "zzz", "http://nope/1", gen.ORIG_URI + "1"):
+    for u in ("", "zzz", "http://nope/1", *(x + "1" for x in gen.SPECIAL_URIS)):
         call(c.standardize_uri, u)
     if g % 4 == 3:
         for x in use_as_input_of_derivations(api, c, rng):
